@@ -44,6 +44,12 @@ CHECKS = {
     },
 }
 
+CHECKS["C03"] = {
+    "technique": "runtime monitoring: generated call histories run by the real code; printed trace, outcome and end-of-run globals judged by the reference call semantics; context invariants (state stack, memory blocks, reference counts, static block indices) walked by a hook at every statement boundary",
+    "text": "Random call graphs of 1-5 SUB/FUNCTION definitions (a third STATIC), calls nested in argument lists, every argument shape x parameter type, aliasing, histories that interleave STATIC and ordinary subprograms from the main module and from inside other subprograms, DIM SHARED variables and CONSTs; stdout, outcome (code + row) and the typed dump of the global block are compared with rv/ref.py; the invariant monitor observed every statement boundary.",
+    "note": "By-reference is judged as copy-in/copy-out with left-to-right write-back (the property's wording); by-reference arguments with side-effecting subscripts, array parameters and record parameters are not generated.",
+    "design": "DESIGN.md section 2 C03",
+}
 CHECKS["C06"] = {
     "technique": "runtime monitoring: slot-invariant hook that walks every live memory block at every statement boundary (variant tag vs declared type, value range), plus reference prediction of stored value or Overflow for every generated statement; repeated on the plain release build",
     "text": "Exhaustive over the boundary set of each numeric type x each target type x every route into a variable (assignment, by-value and by-ref parameter, SHARED variable in a SUB, FOR initial value/limit/increment, READ, INPUT from console and file, function result, array element, record field, CONST with suffix) and every arithmetic operator on all boundary pairs; random in-range values. The monitor observed every scalar slot (variables, array elements, record fields, parameters, counters) at every statement boundary of every run.",
